@@ -26,3 +26,41 @@ ODD = [
     # garbage
     "", "(", "zzzz qqqq", "\x00",
 ]
+
+
+def _calls():
+    import dateparser
+    from dateparser.calendars.hijri import HijriCalendar
+    from dateparser.calendars.jalali import JalaliCalendar
+    from dateparser.date import DateDataParser
+    from dateparser.search import search_dates
+    return [
+        ("HijriCalendar(...).get_date()", lambda: HijriCalendar("1437-01-17 \u0647\u0640, 08:30 \u0645\u0633\u0627\u0621\u064b").get_date()),
+        ("HijriCalendar numeric", lambda: HijriCalendar("17-01-1437").get_date()),
+        ("JalaliCalendar(...).get_date()", lambda: JalaliCalendar("\u062c\u0645\u0639\u0647 \u0633\u06cc \u0627\u0645 \u0627\u0633\u0641\u0646\u062f \u06f1\u06f3\u06f8\u06f7").get_date()),
+        ("search_dates en", lambda: search_dates("on 5 March 2015 and tomorrow at 10:30, see 01/02/2003", languages=["en"])),
+        ("search_dates autodetect", lambda: search_dates("le 2 mars 2015 et hier")),
+        ("date_formats week+weekday", lambda: dateparser.parse("2015 10 Mon", date_formats=["%Y %W %a"])),
+        ("date_formats two-digit year", lambda: dateparser.parse("10.03.15", date_formats=["%d.%m.%y"])),
+        ("explicit order YDM", lambda: dateparser.parse("2015-03-02", settings={"DATE_ORDER": "YDM"})),
+        ("region AU", lambda: dateparser.parse("01/02/2003", languages=["en"], region="AU")),
+        ("locale fr-CA", lambda: dateparser.parse("2003-02-01", locales=["fr-CA"])),
+        ("no-spaces parser", lambda: dateparser.parse("20150302", settings={"PARSERS": ["no-spaces-time"]})),
+        ("strict incomplete", lambda: dateparser.parse("March 2015", settings={"STRICT_PARSING": True})),
+        ("failing settings", lambda: dateparser.parse("March 2015", settings={"DATE_ORDER": "XYZ"})),
+        ("given order two languages", lambda: DateDataParser(languages=["de", "en"], use_given_order=True).get_date_data("02.03.2015")),
+    ]
+
+
+_CALLS = None
+
+
+def calls():
+    """Other entry points and configurations used as the FIRST call of a two-call history (each swallowed: only its side effects matter)."""
+    global _CALLS
+    if _CALLS is None:
+        _CALLS = _calls()
+    return _CALLS
+
+
+N_CALLS = 14
